@@ -1786,3 +1786,55 @@ def virtok(repo):
                 TEMPLATES, tp[name]["line"], name)
     res.analysed = [TEMPLATES]
     return res
+
+
+def includename(repo):
+    """R-INCLUDENAME (C07): the name in `#include "..."` is a header-name, not a string literal: no escape sequences are
+    processed (g++ looks for a file whose name contains the backslash), and a name containing `"` or a line break cannot
+    be written.  (a) What header_generator hands to the `include` template as `file_name` is the imported file's name
+    itself plus a suffix -- not the result of a call (an escaping function: `bob's_types.emb` became `bob\\'s_types.emb.h`,
+    file not found).  (b) Names that cannot be written are diagnosed: a function reached from generate_header tests
+    `'"' in <import>.file_name.text` and appends an error."""
+    res = RuleResult("R-INCLUDENAME")
+    hg = repo.mod("compiler/back_end/cpp/header_generator.py")
+    n_inc = 0
+    for f in hg.funcs.values():
+        for c in walk_no_nested_funcs(f.node):
+            if isinstance(c, ast.Call) and (call_name(c) or "").endswith("format_template") and c.args \
+                    and ast.unparse(c.args[0]).endswith("_TEMPLATES.include"):
+                n_inc += 1
+                res.instances += 1
+                for k in c.keywords:
+                    if k.arg == "file_name" and any(isinstance(x, ast.Call) for x in ast.walk(k.value)):
+                        res.add(f"{hg.rel}|{f.qualname}|include-transformed", f"{f.qualname} writes `{ast.unparse(k.value)[:60]}` into #include \"...\": "
+                                "header names have no escape sequences, so a transformed name (a backslash before `'`) names a "
+                                "different file and the generated header does not compile", hg.rel, c.lineno, f.qualname)
+    if n_inc < 2:
+        raise AnalysisError(f"header_generator: only {n_inc} uses of the include template found")
+    res.instances += 1
+    checker = None
+    for f in hg.funcs.values():
+        src = ast.unparse(f.node)
+        if "foreign_import" in src and re.search(r"""['"]\\?"['"]\s+in\s+\w+\.file_name\.text""", src) and "errors.append" in src:
+            checker = f
+    reached = False
+    if checker is not None:
+        # called (transitively, two levels) from generate_header
+        gh = [f for f in hg.top_funcs() if f.name == "generate_header"]
+        names = set()
+        frontier = {gh[0].name} if gh else set()
+        byname = {f.name: f for f in hg.top_funcs()}
+        for _ in range(3):
+            nxt = set()
+            for nm in frontier:
+                for c in walk_no_nested_funcs(byname[nm].node):
+                    if isinstance(c, ast.Call) and (call_name(c) or "") in byname:
+                        nxt.add(call_name(c))
+            names |= nxt
+            frontier = nxt
+        reached = checker.name in names
+    if checker is None or not reached:
+        res.add(f"{hg.rel}|generate_header|unwritable-include", "no check reached from generate_header rejects an imported file name that "
+                "contains a double quote: `import \"q\\\"x.emb\"` yields `#include \"q\"x.emb.h\"`", hg.rel, 0, "generate_header")
+    res.analysed = [hg.rel]
+    return res
